@@ -214,13 +214,50 @@ struct PairLog
     long oob = 0;
 };
 
+// The iterator range handed to the library holds ITEM IDS (`ids=` of the case line: distinct integers from a larger id
+// space, in any order; default: the identity 0..N-1).  All data (distance matrix, points) are stored by POSITION in the
+// range; the callbacks receive ids, translate them back to positions and count everything that is not an item of the range
+// (`badid`): a routine that passes positions, offsets or anything else than `begin[i]` to a callback is observed here.
+struct IdMap
+{
+    std::vector<int> ids;
+    std::map<int, int> pos;
+    mutable long bad = 0;
+    void set(std::map<std::string, std::string>& f, int N)
+    {
+        ids.clear();
+        pos.clear();
+        bad = 0;
+        if (f.count("ids"))
+            for (long x : vh::parse_ints(f["ids"]))
+                ids.push_back((int)x);
+        else
+            for (int i = 0; i < N; ++i)
+                ids.push_back(i);
+        for (int i = 0; i < (int)ids.size(); ++i)
+            pos[ids[i]] = i;
+    }
+    int operator()(int id) const
+    {
+        auto it = pos.find(id);
+        if (it == pos.end())
+        {
+            ++bad;
+            return -1;
+        }
+        return it->second;
+    }
+};
+
 struct MatrixDistance
 {
     const std::vector<double>* dm;
     int N;
     PairLog* log;
-    ScalarType distance(int a, int b) const
+    const IdMap* idm;
+    ScalarType distance(int ida, int idb) const
     {
+        int a = (*idm)(ida), b = (*idm)(idb);
         log->pairs.push_back({a, b});
         if (a < 0 || b < 0 || a >= N || b >= N)
         {
@@ -236,8 +273,12 @@ struct PointsDistance
     const DenseMatrix* X; // D x N
     PairLog* log;
     bool record;
-    ScalarType distance(int a, int b) const
+    const IdMap* idm;
+    ScalarType distance(int ida, int idb) const
     {
+        int a = (*idm)(ida), b = (*idm)(idb);
+        if (a < 0 || b < 0)
+            return 0.0;
         if (record)
             log->pairs.push_back({a, b});
         else if (a == b)
@@ -249,13 +290,18 @@ struct PointsDistance
 struct PointsFeatures
 {
     const DenseMatrix* X; // D x N
+    const IdMap* idm;
     IndexType dimension() const
     {
         return X->rows();
     }
-    void vector(int i, DenseVector& v) const
+    void vector(int id, DenseVector& v) const
     {
-        v = X->col(i);
+        int i = (*idm)(id);
+        if (i < 0)
+            v = DenseVector::Zero(X->rows());
+        else
+            v = X->col(i);
     }
 };
 
@@ -356,11 +402,11 @@ static void op_spe(std::map<std::string, std::string>& f, bool summary)
     tapkee::tapkee_internal::Neighbors nb;
     if (!g)
         nb = parse_neighbors(f["nb"]);
-    std::vector<int> idx(N);
-    for (int i = 0; i < N; ++i)
-        idx[i] = i;
+    IdMap idm;
+    idm.set(f, N);
+    std::vector<int> idx = idm.ids;
     PairLog log;
-    MatrixDistance cb{&dm, N, &log};
+    MatrixDistance cb{&dm, N, &log, &idm};
 
     tapkee::verif_shuffle_generator().seed(seed);
     std::mt19937 clone = tapkee::verif_shuffle_generator();
@@ -459,7 +505,7 @@ static void op_spe(std::map<std::string, std::string>& f, bool summary)
         out << " iters=" << iters << " dupiters=" << dupiters << " mindistinct=" << mindistinct << " c1=" << ints(c1)
             << " c2=" << ints(c2) << " l1=" << ints(l1) << " l2=" << ints(l2);
     }
-    out << " selfpairs=" << self << " oobidx=" << log.oob;
+    out << " selfpairs=" << self << " oobidx=" << log.oob << " badid=" << idm.bad;
     if (np >= 0 && !summary)
         out << " perms=" << position_perms(clone, N, np);
     else if (np >= 0)
@@ -488,11 +534,11 @@ static void op_speapi(std::map<std::string, std::string>& f)
     long T = std::stol(f["T"]);
     double tol = vh::parse_num(f["tol"]);
     DenseMatrix X = parse_points(f["pts"], N, D);
-    std::vector<int> idx(N);
-    for (int i = 0; i < N; ++i)
-        idx[i] = i;
+    IdMap idm;
+    idm.set(f, N);
+    std::vector<int> idx = idm.ids;
     PairLog log;
-    PointsDistance cb{&X, &log, false};
+    PointsDistance cb{&X, &log, false, &idm};
     tapkee::verif_shuffle_generator().seed((unsigned)std::stoul(f["seed"]));
     std::srand((unsigned)std::stoul(f["srand"]));
     std::cerr << "speapi N=" << N << "\n";
@@ -505,7 +551,7 @@ static void op_speapi(std::map<std::string, std::string>& f)
             (target_dimension = d, spe_global_strategy = (g != 0), num_neighbors = k, spe_num_updates = nup,
              max_iteration = (IndexType)T, spe_tolerance = tol));
         out << "ok rows=" << o.embedding.rows() << " cols=" << o.embedding.cols()
-            << " fin=" << (all_finite(o.embedding) ? 1 : 0) << " selfcalls=" << log.pairs.size()
+            << " fin=" << (all_finite(o.embedding) ? 1 : 0) << " selfcalls=" << log.pairs.size() << " badid=" << idm.bad
             << " y=" << mat_rows(o.embedding);
     }
     catch (const std::exception& e)
@@ -547,9 +593,9 @@ static void op_rp(std::map<std::string, std::string>& f)
     for (int i = 0; i < N; ++i)
         for (int c = 0; c < D; ++c)
             X2(c, i) = X(c, i) + shift.at(c);
-    std::vector<int> idx(N);
-    for (int i = 0; i < N; ++i)
-        idx[i] = i;
+    IdMap idm;
+    idm.set(f, N);
+    std::vector<int> idx = idm.ids;
     bool big = f.count("big") && f["big"] == "1"; // moments only
     using namespace tapkee;
     std::ostringstream out;
@@ -569,7 +615,7 @@ static void op_rp(std::map<std::string, std::string>& f)
 #ifndef C19_STREAMS
             vr::arm(f.count("rs") ? vh::parse_ints(f["rs"]) : std::vector<long>());
 #endif
-            PointsFeatures fc{r == 0 ? &X : &X2};
+            PointsFeatures fc{r == 0 ? &X : &X2, &idm};
             o[r] = run_method<tapkee_internal::RandomProjectionImplementation>(
                 idx.begin(), idx.end(), NoKernel(), NoDistance(), fc, (target_dimension = d, max_iteration = 100));
 #ifdef C19_STREAMS
@@ -602,7 +648,7 @@ static void op_rp(std::map<std::string, std::string>& f)
             out << " y=" << mat_rows(o[0].embedding) << " y2=" << mat_rows(o[1].embedding);
         else
             out << " ysame=" << ((o[0].embedding.array() == o[1].embedding.array()).all() ? 1 : 0);
-        out << " ng=" << ng << " gex=" << (gex ? 1 : 0);
+        out << " ng=" << ng << " gex=" << (gex ? 1 : 0) << " badid=" << idm.bad;
     }
     catch (const std::exception& e)
     {
@@ -626,9 +672,9 @@ static void op_fa(std::map<std::string, std::string>& f)
     for (int i = 0; i < N; ++i)
         for (int c = 0; c < D; ++c)
             X2(c, i) = X(c, i) + shift.at(c);
-    std::vector<int> idx(N);
-    for (int i = 0; i < N; ++i)
-        idx[i] = i;
+    IdMap idm;
+    idm.set(f, N);
+    std::vector<int> idx = idm.ids;
     using namespace tapkee;
     std::ostringstream out;
     std::cerr << "fa N=" << N << "\n";
@@ -655,7 +701,7 @@ static void op_fa(std::map<std::string, std::string>& f)
             }
             else
             {
-                PointsFeatures fc{r == 0 ? &X : &X2};
+                PointsFeatures fc{r == 0 ? &X : &X2, &idm};
                 o[r] = run_method<tapkee_internal::FactorAnalysisImplementation>(
                     idx.begin(), idx.end(), NoKernel(), NoDistance(), fc,
                     (target_dimension = d, max_iteration = (IndexType)T, fa_epsilon = eps));
@@ -668,7 +714,7 @@ static void op_fa(std::map<std::string, std::string>& f)
         out << "ok rows=" << o[0].embedding.rows() << " cols=" << o[0].embedding.cols()
             << " fin=" << (all_finite(o[0].embedding) && all_finite(o[1].embedding) ? 1 : 0)
             << " hasproj=" << (o[0].projection.implementation ? 1 : 0) << " a0=" << mat_rows(A0)
-            << " y=" << mat_rows(o[0].embedding) << " y2=" << mat_rows(o[1].embedding) << " ner=" << ner;
+            << " y=" << mat_rows(o[0].embedding) << " y2=" << mat_rows(o[1].embedding) << " ner=" << ner << " badid=" << idm.bad;
     }
     catch (const std::exception& e)
     {
